@@ -856,13 +856,18 @@ def L6_panic_path(ctx):
     # CancelOnPanic::drop cancels when panicking
     d = [b for b in facts.production() if 'CancelOnPanic' in b['fn'] and b['fn'].endswith('::drop')]
     okd = False
+    badd = []
     for b in d:
         df = ctx.fn(b)
         for p in feasible(df.paths()):
-            pk = [a for a in p.events if a.kind == 'atom' and a.d['term'][0] == 'call' and a.d['term'][1].endswith('thread::panicking') and a.d['outcome'] == 'true']
-            if pk and calls(p, 'Scheduler>::cancel'):
+            pk = [a for a in p.events if a.kind == 'atom' and a.d['term'][0] == 'call' and a.d['term'][1].endswith('thread::panicking')]
+            if pk and pk[0].d['outcome'] == 'true' and calls(p, 'Scheduler>::cancel'):
                 okd = True
-    ctx.ob('L6', 'CancelOnPanic::drop', 'drop-cancels-while-panicking', okd, '')
+            # on EVERY unwinding path: nothing but "not panicking" excuses the guard from cancelling
+            if p.end == 'return' and not calls(p, 'Scheduler>::cancel') and not (pk and pk[0].d['outcome'] == 'false'):
+                badd.append(p)
+    ctx.ob('L6', 'CancelOnPanic::drop', 'drop-cancels-while-panicking', okd and not badd, f'{len(badd)} path(s) leave the guard without cancelling although the thread may be panicking',
+           what='a role that unwinds must release its peers whatever else is true; the only path that may skip cancel() is the one on which thread::panicking() was read false')
 
 
 WHO_CALLS = [
